@@ -3,6 +3,8 @@
 //!        (`sign` through the inherent method AND the `Signed` trait, `as_relaxed()` for an RBig — all forms must agree;
 //!         `is_int` exists for RBig only)
 //!   qp.consts <R|X>                ->  `ZERO ONE NEG_ONE default()` as stored pairs
+//!   qp.pow q:<num>/<den>:<R|X> d:<n> ->  `<num>/<den>` of `pow(n)` as stored, or `panic AllocTooMuch` (round 6: the allocation
+//!        guards of IBig::pow / UBig::pow under Repr::pow — exp.checked_mul(shift), Buffer::allocate of the final shift)
 use dashu_base::{Sign, Signed};
 use dashu_int::{IBig, UBig};
 use dashu_ratio::{RBig, Relaxed};
@@ -89,6 +91,25 @@ pub fn dispatch(op: &str, args: &[&str]) -> Option<Res> {
                             "{} {} {} - {} {}",
                             sg(s1), a.is_zero(), a.is_one(), pair(&pn, &pd), pair(c.numerator(), c.denominator())
                         )
+                    }
+                });
+                match out {
+                    Ok(s) => Ok(s),
+                    Err(p) => Err(p),
+                }
+            }
+            "pow" => {
+                let (n, d, k) = parts(arg(args, 0)?)?;
+                let e = p_usize(arg(args, 1)?)?;
+                let out = catch(|| {
+                    if k == 'R' {
+                        let a = RBig::from_parts(n.clone(), d.clone());
+                        let r = a.pow(e);
+                        pair(r.numerator(), r.denominator())
+                    } else {
+                        let a = Relaxed::from_parts(n.clone(), d.clone());
+                        let r = a.pow(e);
+                        pair(r.numerator(), r.denominator())
                     }
                 });
                 match out {
